@@ -322,8 +322,17 @@ def case_history(ctx, rng):
                 s = pe.input.json.create_json_string([a, b, [a, a * 2.0]], indent=int(rng.integers(0, 2)))
                 res = pe.input.json.import_json_string(s, verbose=False)
             elif act == 'dobs':
-                s = pe.input.dobs.create_dobs_string([a, b], 'history').encode('utf-8')
-                res = pe.input.dobs.import_dobs_string(s, full_output=False)
+                try:
+                    s = pe.input.dobs.create_dobs_string([a, b], 'history').encode('utf-8')
+                except Exception as e:
+                    # an object that went through a dobs round trip carries its covariance matrix with 15 digits;
+                    # the writer demands bit-identical matrices for one name: not a matter of C04
+                    if 'Inconsistent covariance matrices' not in str(e):
+                        raise
+                    ctx.count('dobs_export_refused_inconsistent_covariance')
+                    s = None
+                if s is not None:
+                    res = pe.input.dobs.import_dobs_string(s, full_output=False)
             elif act == 'pickle':
                 res = pickle.loads(pickle.dumps(a))
                 check_returned(ctx, res, 'pickle')
@@ -351,7 +360,8 @@ def case_history(ctx, rng):
         flat = []
         collect_flat(res, flat)
         for r in flat:
-            if is_obs(r) and np.isfinite(r.value) and not isinstance(r.value, complex):
+            if is_obs(r) and not isinstance(r.value, complex) and np.isfinite(r.value) and \
+                    all(np.all(np.isfinite(d)) for d in r.deltas.values()) and all(np.isfinite(v) for v in r.r_values.values()):
                 rb = bounded(r)
                 if rb is not None and len(pool) < 14:
                     pool.append(rb)
